@@ -776,6 +776,54 @@ def multimap_idioms(stmts: list[ast.stmt]) -> list[ast.stmt]:
     return stmts
 
 
+def _never_none(e, known: dict) -> bool:
+    """e certainly evaluates to something other than None: numbers, len(..), arithmetic on those, displays, strings"""
+    if isinstance(e, ast.Constant):
+        return e.value is not None
+    if isinstance(e, (ast.List, ast.Tuple, ast.Dict, ast.Set, ast.ListComp, ast.DictComp, ast.SetComp, ast.GeneratorExp, ast.JoinedStr)):
+        return True
+    if isinstance(e, ast.Call) and isinstance(e.func, ast.Name) and e.func.id in ("len", "int", "str", "bool", "list", "tuple", "dict", "set", "sum", "abs", "repr", "float", "sorted"):
+        return True
+    if isinstance(e, ast.BinOp) and isinstance(e.op, (ast.Add, ast.Sub, ast.Mult, ast.FloorDiv, ast.Mod)):
+        return _never_none(e.left, known) and _never_none(e.right, known)
+    if isinstance(e, ast.Name):
+        return known.get(e.id, False)
+    return False
+
+
+def fold_none_tests(stmts: list[ast.stmt]) -> list[ast.stmt]:
+    """if x is not None: A else: B   with x a number / length / display  ->  A      (and the `is None` twin -> B)"""
+    def block(b, known):
+        known = dict(known)
+        out = []
+        for s_ in b:
+            if isinstance(s_, ast.If):
+                t = s_.test
+                neg = False
+                while isinstance(t, ast.UnaryOp) and isinstance(t.op, ast.Not):
+                    t, neg = t.operand, not neg
+                if isinstance(t, ast.Compare) and len(t.ops) == 1 and isinstance(t.ops[0], (ast.Is, ast.IsNot)) \
+                        and isinstance(t.comparators[0], ast.Constant) and t.comparators[0].value is None and _never_none(t.left, known):
+                    truth = isinstance(t.ops[0], ast.IsNot) != neg
+                    out += block(s_.body if truth else s_.orelse, known)
+                    continue
+            for fld in ("body", "orelse", "finalbody"):
+                bb = getattr(s_, fld, None)
+                if isinstance(bb, list) and bb and isinstance(bb[0], ast.stmt) and not isinstance(s_, (ast.FunctionDef, ast.AsyncFunctionDef, ast.ClassDef)):
+                    inner_known = known if not isinstance(s_, (ast.For, ast.While)) else {k: v for k, v in known.items() if k not in _assigned_names([s_])}
+                    setattr(s_, fld, block(bb, inner_known) or [ast.Pass()])
+            if isinstance(s_, ast.Try):
+                for h in s_.handlers:
+                    h.body = block(h.body, known) or [ast.Pass()]
+            for n_ in _assigned_names([s_]):
+                known.pop(n_, None)
+            if isinstance(s_, ast.Assign) and len(s_.targets) == 1 and isinstance(s_.targets[0], ast.Name):
+                known[s_.targets[0].id] = _never_none(s_.value, known)
+            out.append(s_)
+        return out
+    return block(list(stmts), {})
+
+
 def rename_param_rebinds(stmts: list[ast.stmt]) -> list[ast.stmt]:
     """x = f(x) at the top level of a function body, x assigned nowhere else (so the x read on the right is the parameter):
     the new value gets its own name x_1 in that statement and everything after it.  `config = config or Default()` and
